@@ -13,8 +13,39 @@ def run_glue(ctx, focus, n_batches):
         # every batch is generated from its own seed, so a failure is replayable from (seed, focus, tier, batch number)
         bseed = f'{ctx.seed}:{focus}:{int(ctx.quick)}:{b}'
         one_batch(ctx, focus, random.Random(bseed), b, bseed, cases, descr)
+    if focus in ('c09', 'c02'):
+        long_sentences(ctx, focus, 1 if ctx.quick else 8)
     ctx.coq_cases('retrieve_tree', glue.PRE, cases, chunk=60, describe=lambda i: descr[i])
     ctx.stats['retrieve_cases'] = len(cases)
+
+
+def long_sentences(ctx, focus, count):
+    """sentences of more than 256 tokens (max_length is the caller's option; 250 is only its default): Tree-level oracles only"""
+    import random
+    from depccg.types import CombinatorResult
+    for k in range(count):
+        bseed = f'{ctx.seed}:{focus}:long:{k}'
+        rng = random.Random(bseed)
+        c = _TagFail(ctx, bseed)
+        n = rng.randint(257, 300)
+        cats = [Category.parse('A')]      # one category: about n^3/6 pushes, well inside the step budget
+        hl = rng.random() < 0.5
+        table = {(x, y): [CombinatorResult(cat=rng.choice(cats), op_string=f'r{str(x)}{str(y)}', op_symbol='<r>', head_is_left=hl)] for x in cats for y in cats}
+        binary, unary = (lambda x, y: list(table.get((x, y), []))), (lambda x: [])
+        s = glue.rand_sentence(rng, len(cats), n=n)
+        pen8 = rng.choice([0, 1])
+        try:
+            res, rec = glue.run([s], cats, cats, binary, unary, unary_penalty=pen8 / 8.0, beta=0.1, use_beta=False, pruning_size=50, nbest=1,
+                                max_step=10000000, max_length=1000)
+        except Exception as e:      # noqa
+            c.fail('run_raised', f'depccg.parsing.run raised {type(e).__name__}: {e} on a sentence of {n} tokens (max_length=1000)', {'n': n})
+            continue
+        ctx.count('glue:long_sentence')
+        ctx.case(('long', n, len(cats), hl, tuple(s.tag[:3, 0].tolist())), nontrivial=True)
+        if len(res) != 1 or glue.is_placeholder(res[0][0]):
+            c.fail('false_failure', f'a sentence of {n} tokens over a total grammar (every pair of categories combines, every category is a root) was not parsed', {'n': n})
+            continue
+        glue.check_tree(c, focus, res[0][0].tree, res[0][0].score, s, cats, cats, binary, unary, [list(cats)] * n, pen8 / 8.0, f'long sentence {k} ({n} tokens)')
 
 
 class _TagFail:
@@ -42,6 +73,11 @@ def replay(data, focus):
         bs = d.get('batch_seed') if isinstance(d, dict) else None
         if bs and bs not in seen:
             seen.add(bs)
+            if ':long:' in bs:
+                seed, foc, _, b = bs.split(':')
+                ctx.seed = int(seed)
+                long_sentences(ctx, foc, int(b) + 1)      # regenerates that sentence (and the cheap earlier ones) from the seed
+                continue
             seed, foc, quick, b = bs.split(':')
             ctx.quick = bool(int(quick))
             one_batch(ctx, foc, random.Random(bs), int(b), bs, [], [])
@@ -78,6 +114,9 @@ def one_batch(ctx0, focus, rng, b, bseed, cases, descr):
             lang = 'en+seen'
         nbest = rng.choice([1, 1, 2, 4])
         pen8 = rng.choice([0, 1, 2])
+        if focus == 'c09' and rng.random() < 0.2:
+            pen8 = rng.choice([-1, -2, -3])      # a unary bonus: legal, and C09 quantifies over every penalty
+            ctx.count('glue:penalty_negative')
         pruning = rng.choice([2, 3, 50])
         use_beta = rng.random() < 0.3
         theta_odd = rng.choice([15, 31, 63])
@@ -88,6 +127,8 @@ def one_batch(ctx0, focus, rng, b, bseed, cases, descr):
             # step budget, so the budget is kept small here (1-best search stores one item per category and cell, and terminates)
             max_step = min(max_step, rng.randint(20, 400))
         sents = [glue.rand_sentence(rng, len(cats), nmax=4 if ctx.quick else 5, full=rng.random() < 0.5) for _ in range(rng.randint(1, 4))]
+        if isinstance(sents[0].tokens[0], str):
+            sents[0].tokens[0] = gen.rand_token(rng, 'en', full=False, plain=True)      # the token _type_check inspects
         if focus == 'c16' and rng.random() < 0.4:
             # rows flattened by the category dictionary to a huge negative value (the real apply_category_filters, in place)
             from depccg.types import ScoringResult
@@ -95,19 +136,30 @@ def one_batch(ctx0, focus, rng, b, bseed, cases, descr):
             cat_dict = {}
             for s_ in sents:
                 for t_ in s_.tokens:
+                    if isinstance(t_, str):
+                        continue        # apply_category_filters reads token.word: Token objects only
                     if rng.random() < 0.5:
                         cat_dict[t_['word']] = rng.sample(cats, rng.randint(1, max(1, len(cats) // 2)))
-            if cat_dict:
+            if cat_dict and not any(isinstance(t_, str) for s_ in sents for t_ in s_.tokens):
                 P.apply_category_filters([s_.tokens for s_ in sents], [ScoringResult(s_.tag, s_.dep) for s_ in sents], cats, cat_dict)
                 ctx.count('glue:category_dictionary_applied')
         cfg = dict(unary_penalty=pen8 / 8.0, beta=math.exp(-theta_odd / 16.0), use_beta=use_beta, pruning_size=pruning, nbest=nbest,
                    max_step=max_step, max_length=max_length)
+        # the worker-pool path of depccg.parsing.run (batch larger than max_chunk_size) must honour the same configuration
+        pool = focus in ('c16', 'c02') and lang != 'synthetic' and len(sents) >= 2 and rng.random() < 0.5      # (closures of the synthetic tables cannot be pickled)
+        extra = dict(max_chunk_size=rng.randint(1, len(sents) - 1), processes=rng.randint(1, 3)) if pool else {}
+        if pool:
+            ctx.count('glue:pool_path')
         try:
-            res, rec = glue.run(sents, cats, roots, binary, unary, **cfg)
+            res, rec = glue.run(sents, cats, roots, binary, unary, record=not pool, **cfg, **extra)
+            if pool:
+                rec = None          # the finalizer ran in the worker processes
+                for s_ in sents:
+                    s_.by_value = True      # and the tokens came back through pickling: equal, not identical
         except Exception as e:      # noqa
             ctx.fail('run_raised', f'depccg.parsing.run raised {type(e).__name__}: {e} on a well-formed batch ({lang}, nbest={nbest})',
                      {'lang': lang, 'config': {k: (v if not isinstance(v, float) else float(v)) for k, v in cfg.items()},
-                      'sentences': [{'tag': s.tag.tolist(), 'dep': s.dep.tolist(), 'words': [t.get('word') for t in s.tokens]} for s in sents]})
+                      'sentences': [{'tag': s.tag.tolist(), 'dep': s.dep.tolist(), 'words': [glue.word_of(t) for t in s.tokens]} for s in sents]})
             return
         if focus == 'c16':
             reference_compare(ctx, sents, res, cats, roots, binary, unary, cfg, lang)
@@ -130,11 +182,11 @@ def one_batch(ctx0, focus, rng, b, bseed, cases, descr):
                 if focus in ('c02',) and glue.is_placeholder(st):
                     ctx.fail('placeholder_among_parses', f'{where}: the failure placeholder appears next to real parses', {'where': where})
                 glue.check_tree(ctx, focus, st.tree, st.score, s, cats, roots, binary, unary, adm, pen8 / 8.0, where)
-                if k < len(rec):
+                if rec is not None and k < len(rec):
                     cases.append(glue.retrieve_case(rec[k], st.tree))
                     descr.append(where)
                 k += 1
-        if k != len(rec):
+        if rec is not None and k != len(rec):
             ctx.fail('finalizer_count', f'{len(rec)} items were handed to the finalizer but {k} trees were returned', {'lang': lang})
         if b < 2 and res and res[0]:
             ctx.sample({'glue_run': lang, 'first_tree': glue.auto_str(res[0][0].tree), 'score': res[0][0].score})
